@@ -21,15 +21,31 @@ EXPLANATION = (
     "because the oracle is a property of the group. determine_n_emitters == max_k h_k. The part 'allocates exactly this "
     "many emitters and emits each photon exactly once' is asserted on every circuit of the C02 run (see C02 evidence).")
 ASSUMPTIONS = ["A1 z3 sound", "A2 numpy object-array semantics", "input precondition: commuting independent generators"]
-BOUNDS = {"quick": {"general tableaux": "n<=2", "graph states": "n<=4"}, "thorough": {"general tableaux": "n<=3", "graph states": "n<=5"}}
+BOUNDS = {"quick": {"general tableaux": "n<=2", "graph states": "n<=4 (both the x/z-matrix route and the graph= route) + budgeted look at n=6"},
+          "thorough": {"general tableaux": "n<=3", "graph states": "n<=5 complete, n=6 under a 2 h budget per route"}}
 OUTSIDE = "minimality over other emission orders (the statement fixes the order); emitter_sorted / relabel glue; n above the bounds"
 
 
 def cut_count(rows, n, k):
-    """#{g in <rows> : g trivial on qubits k+1..n-1}  as an int-like (identity included)"""
+    """#{g in <rows> : g trivial on qubits k+1..n-1}  as an int-like (identity included).  Signs play no role for
+    the support of a group element, so only the x/z bits are combined (XOR over the chosen generators)."""
+    import itertools
+
     count = 1
-    for coeffs, g in group_elements(rows):
-        triv = b_and(*[O.eq_bits(g.x[j], 0) for j in range(k + 1, n)], *[O.eq_bits(g.z[j], 0) for j in range(k + 1, n)])
+    outside = list(range(k + 1, n))
+    for coeffs in itertools.product((0, 1), repeat=len(rows)):
+        if not any(coeffs):
+            continue
+        conds = []
+        for j in outside:
+            ax, az = 0, 0
+            for c, r in zip(coeffs, rows):
+                if c:
+                    ax = ax ^ r.x[j]
+                    az = az ^ r.z[j]
+            conds.append(O.eq_bits(ax, 0))
+            conds.append(O.eq_bits(az, 0))
+        triv = b_and(*conds)
         count = count + (int(triv) if isinstance(triv, bool) else triv.as_int())
     return count
 
@@ -123,11 +139,73 @@ class HeightGraph(Harness):
         S.prove("determine_n_emitters-is-max-height", int(ne) == max(int(h) for h in hl))
 
 
+class HeightDictGraph(Harness):
+    """the graph= entry points: height_dict(graph=G) / height_max(graph=G) for a symbolic networkx-like graph equal
+    the cut entropies of |G> (and therefore agree with the x/z-matrix route)"""
+
+    weight = 30
+
+    def input_space(self):
+        return self.n * (self.n - 1) // 2
+
+    def install(self):
+        super().install()
+        from symnp import stubs, install as sinstall
+        stubs.install_nx()
+        import networkx as nx
+        from symnp.stubs import SymGraph
+
+        class _GraphClasses:  # height_dict tests isinstance(graph, nx.classes.graph.Graph)
+            class graph:
+                class _Meta(type):
+                    def __instancecheck__(cls, obj):
+                        return isinstance(obj, (nx.Graph, SymGraph))
+
+                class Graph(metaclass=_Meta):
+                    pass
+
+        stubs.NX_PROXY.classes = _GraphClasses
+
+    def declare(self, S):
+        return declare_graph(S, self.n)
+
+    def body(self, S, spec):
+        import graphiq.backends.stabilizer.functions.height as height
+        import networkx as nx
+
+        n = self.n
+        adj = cells(spec["adj"])
+        rows = [O.Row([1 if j == i else 0 for j in range(n)], [adj[i][j] for j in range(n)]) for i in range(n)]
+        if S.symbolic:
+            from symnp.stubs import SymGraph
+            g = SymGraph(spec["adj"].copy())
+        else:
+            g = nx.from_numpy_array(np.asarray(spec["adj"]))
+        hd = height.height_dict(graph=g)
+        S.prove("keys", sorted(hd.keys()) == list(range(-1, n)))
+        S.prove("imaginary-position", int(hd[-1]) == 0)
+        check_heights(S, rows, n, [hd[k] for k in range(n)], tag="height_dict(graph=):")
+        if S.symbolic:
+            g = SymGraph(spec["adj"].copy())
+        hm = height.height_max(graph=g)
+        S.prove("height_max(graph=)-is-max", int(hm) == max([0] + [int(hd[k]) for k in range(n)]))
+
+
 def plan(tier):
     q = tier == "quick"
     jobs = [(HeightGeneral(n=1), {}), (HeightGeneral(n=2), {})]
     for n in ([2, 3, 4] if q else [2, 3, 4]):
         jobs.append((HeightGraph(n=n), {}))
+    for n in ([2, 3, 4] if q else [2, 3, 4, 5]):
+        h = HeightDictGraph(n=n)
+        h.parallel = n >= 5
+        jobs.append((h, {"time_budget": 3000}))
+    for hcls in (HeightDictGraph, HeightGraph):
+        # n = 6: all 32768 labelled graphs; budgeted in quick, generous budget in thorough
+        h = hcls(n=6)
+        h.parallel = True
+        h.partial_ok = True
+        jobs.append((h, {"time_budget": 40 if q else 2 * 3600, "chunk_paths": 8, "chunk_s": 8.0}))
     if not q:
         h = HeightGeneral(n=3)
         h.parallel = True
